@@ -19,6 +19,8 @@ struct ReadScript {
     bool read_error_persistent = true; // every later read fails as well (false: one failed call, then the data continues)
     size_t chunk = 0;          // max bytes per underlying read call (0 = unlimited)
     bool unbuffered = false;
+    bool eager_eof = false;    // a stdio that notices the end of the file as soon as the last byte has been delivered: an fread that fills its
+                               // request with the file's last bytes has feof() set on return (glibc only finds out on the next call)
     int close_errno = 0;       // fclose of the stream reports this error (the descriptor is gone all the same, as with close(2) on NFS)
 };
 // path that the wrapped fopen recognises
